@@ -370,10 +370,34 @@ regex = "1"
 """ % (name, REPO, default, feats, extra_deps)
 
 
+NOSTD_CARGO = """[package]
+name = "%s"
+version = "0.1.0"
+edition = "2021"
+
+[lib]
+path = "src/lib.rs"
+
+[dependencies]
+nutype = { path = "%s/nutype", default-features = false, features = [%s] }
+serde = { version = "1", default-features = false, features = ["derive", "alloc"] }
+arbitrary = "1.3.2"
+"""
+
+
+def nostd_module(d):
+    """a declaration inside a #![no_std] library crate: only the item, no harness code"""
+    fr = fn_render(d.inner)
+    consts = "".join("    %s\n" % c[3] for c in d.env if c[3])
+    return ("pub mod %s {\n    #![allow(dead_code, unused_imports, non_camel_case_types)]\n    use super::rt::*;\n    use nutype::nutype;\n"
+            "    use alloc::vec::Vec;\n    use alloc::vec;\n%s%s\n%s}" % (d.id, consts, d.extra_items, d.rust_struct(toks_rust(d.toks, fr))))
+
+
 class Workspace:
     """a generated cargo workspace of shard binaries under build/<name>"""
 
-    def __init__(self, name, features=FEATURES_ALL, nshards=NSHARDS):
+    def __init__(self, name, features=FEATURES_ALL, nshards=NSHARDS, nostd=False):
+        self.nostd = nostd
         self.name = name
         self.dir = os.path.join(BUILD, name)
         self.features = features
@@ -394,6 +418,13 @@ class Workspace:
             cname = "%s_s%d" % (self.name, k)
             cdir = os.path.join(self.dir, cname)
             members.append(cname)
+            if self.nostd:
+                write_if_changed(os.path.join(cdir, "Cargo.toml"), NOSTD_CARGO % (cname, REPO, ", ".join('"%s"' % f for f in self.features if f != "std")))
+                write_if_changed(os.path.join(cdir, "src", "rt.rs"), rtgen.rt_nostd_source())
+                write_if_changed(os.path.join(cdir, "src", "lib.rs"), "#![no_std]\n#![allow(dead_code, unused_imports, non_snake_case)]\nextern crate alloc;\nmod rt;\nmod decls;\n")
+                mods = [nostd_module(d) for d in shards[k]]
+                write_if_changed(os.path.join(cdir, "src", "decls.rs"), "use super::rt;\n" + "\n\n".join(mods) + "\n")
+                continue
             write_if_changed(os.path.join(cdir, "Cargo.toml"), cargo_toml(cname, self.features))
             write_if_changed(os.path.join(cdir, "src", "rt.rs"), rt)
             write_if_changed(os.path.join(cdir, "src", "main.rs"), MAIN_RS)
@@ -485,3 +516,45 @@ def attribute_errors(ws, errors):
                 bad.setdefault(did, []).append(msg["message"])
             break
     return bad
+
+
+class ModuleWorkspace(Workspace):
+    """shards of free-standing modules (id, rust text): used for compile-verdict catalogues"""
+
+    def write_modules(self, mods):
+        os.makedirs(self.dir, exist_ok=True)
+        shards = [[] for _ in range(self.nshards)]
+        for i, m in enumerate(mods):
+            shards[i % self.nshards].append(m)
+        members = []
+        rt = rtgen.rt_source()
+        for k in range(self.nshards):
+            cname = "%s_s%d" % (self.name, k)
+            cdir = os.path.join(self.dir, cname)
+            members.append(cname)
+            write_if_changed(os.path.join(cdir, "Cargo.toml"), cargo_toml(cname, self.features).replace("[dependencies]", "[lib]\npath = \"src/lib.rs\"\n\n[dependencies]"))
+            write_if_changed(os.path.join(cdir, "src", "rt.rs"), rt)
+            write_if_changed(os.path.join(cdir, "src", "lib.rs"), "#![allow(dead_code, unused_imports, non_snake_case)]\nmod rt;\nmod decls;\n")
+            write_if_changed(os.path.join(cdir, "src", "decls.rs"), "use super::rt;\n" + "\n".join(m[1] for m in shards[k]) + "\n")
+        ws = "[workspace]\nresolver = \"2\"\nmembers = [%s]\n\n[profile.dev]\ndebug = false\nincremental = false\n" % ", ".join('"%s"' % m for m in members)
+        write_if_changed(os.path.join(self.dir, "Cargo.toml"), ws)
+        lock = os.path.join(self.dir, "Cargo.lock")
+        if not os.path.exists(lock):
+            shutil.copyfile(os.path.join(REPO, "Cargo.lock"), lock)
+
+    def verdicts(self, mods, max_rounds=10):
+        """iteratively drop the modules rustc reports errors in; returns id -> messages"""
+        live = list(mods)
+        dropped = {}
+        for _ in range(max_rounds):
+            self.write_modules(live)
+            rc, errors, stderr = self.build()
+            if rc == 0:
+                return dropped
+            bad = attribute_errors(self, errors)
+            if not bad:
+                raise RuntimeError("cargo build failed and no error could be attributed:\n" + stderr[-3000:])
+            for k, v in bad.items():
+                dropped[k] = v
+            live = [m for m in live if m[0] not in dropped]
+        raise RuntimeError("cargo build keeps failing")
